@@ -14,6 +14,9 @@ CLAIMED = {
     "C05": ("DESIGN.md §2 C05",
             "Bounded symbolic model checking: _contains of every catalogue shape is executed on symbolic query points, shape parameters and parameter rows and proved (z3) equivalent to an independent set-theoretic oracle (exactly for primitives, outside a tolerance band for boundaries); the composition layer (union/cut/intersection interiors and boundaries, translate, rotate) is additionally proved on ARBITRARY operands (stub domains answering free symbolic booleans), which gives an inductive step for any nesting depth.",
             "floats as reals; |parameters|<=16 for reject-claims of isclose tests; crossing points of operand boundaries and the band (0, 2e-4) outside the claim; shapely/trimesh excluded"),
+    "C06": ("DESIGN.md §2 C06",
+            "Bounded symbolic model checking: boundary.normal is executed (a) end to end at the points the real boundary samplers return with every draw symbolic (Interval incl. single sides, Circle, thorough: Sphere, parameter-dependent shapes) and (b) at the generic point of every polygon edge (symbolic edge parameter in [0,1] incl. corner zones and corners, all shape parameters symbolic, both vertex orientations of Parallelogram); z3 proves unit length, orthogonality to the edge, that a step against the normal enters the domain, membership in the normal cone at corners; (c) the real polygon boundary samplers are proved to return only points on edges; (d) union/cut/intersection normals are proved on ARBITRARY operands (selection rule, sign flip of the removed part, unit length preserved) which is the inductive step for any nesting.",
+            "floats as reals; Triangle corners counter-clockwise (documented precondition); crossing points of operand boundaries and intervals shorter than 2e-4 outside the claim; k<=2 parameter rows; concrete 2-D Boolean arcs beyond the solver budget (covered by (d) + primitives); shapely/trimesh excluded"),
     "C12": ("DESIGN.md §2 C12",
             "Bounded symbolic model checking: Points/Space operations run on tensors whose cells are distinct symbols and on symbolic slice bounds/masks/dims (forked); every resulting cell is proved equal (z3) to the cell an independent table model routes there, for all layouts of <=3 variables.",
             "layouts of <=3 variables with dims in {1,2} (Space dims symbolic in [1,3]), batch shapes (3,) and (2,2), op sequences <=3; index tensors with distinct entries for assignment"),
